@@ -24,12 +24,14 @@ MODEL_MODULES = ("pptx.opc.package", "pptx.package")
 
 
 class Event:
-    __slots__ = ("level", "what", "file", "line", "callee", "imprecise", "node", "neutral")
+    __slots__ = ("level", "what", "file", "line", "callee", "imprecise", "node", "neutral", "self_rooted", "fresh")
 
     def __init__(self, level, what, file, line, callee=None, imprecise=False, node=None, neutral=False):
         self.level, self.what, self.file, self.line, self.callee, self.imprecise = level, what, file, line, callee, imprecise
         self.node = node
         self.neutral = neutral  # validity-neutral: cannot make a valid part invalid (empty optional element, part renaming)
+        self.self_rooted = False  # the mutated object / call receiver is rooted at `self`
+        self.fresh = False  # call on a just-created receiver: only the callee's effects on objects other than self count
 
 
 class Effects:
@@ -40,6 +42,7 @@ class Effects:
         self.summary = {}
         self.witness = {}
         self.relevant = {}  # FuncInfo -> may perform a validity-relevant mutation
+        self.nonself = {}  # FuncInfo -> effect level on objects other than the receiver
         self.unresolved = []  # (FuncInfo, node, text)
         self._container_cache = {}
         self._byname = {}
@@ -318,8 +321,17 @@ class Effects:
                 self._call(n, f, fc, fresh, in_oxml, in_model, evs)
             elif isinstance(n, ast.Attribute) and isinstance(n.ctx, ast.Load):
                 self._load(n, f, fc, fresh, evs)
+            root = None
+            if isinstance(n, ast.Call) and isinstance(n.func, ast.Attribute):
+                root = self._root_name(n.func.value)
+            elif isinstance(n, ast.Attribute):
+                root = self._root_name(n.value)
+            elif isinstance(n, (ast.Assign, ast.AugAssign, ast.AnnAssign, ast.Delete)):
+                tg = (n.targets if isinstance(n, (ast.Assign, ast.Delete)) else [n.target])[0]
+                root = self._root_name(tg.value) if isinstance(tg, (ast.Attribute, ast.Subscript)) else None
             for e in evs[k:]:
                 e.node = n
+                e.self_rooted = root in ("self", "cls")
         return evs
 
     def _store(self, t, f, fc, fresh, in_oxml, in_model, evs, is_del):
@@ -449,11 +461,12 @@ class Effects:
                         evs.append(Event(WRITES, "%s() on %s" % (meth, "/".join(o.name for o in owners)), f.file, n.lineno))
                 elif a[0] == "func":
                     handled = True
+                    ev = Event(PURE, "call", f.file, n.lineno, callee=a[1],
+                               imprecise=bool(T.fallback_used.get(id(fn)) and len(T.fallback_used[id(fn)]) > 1))
                     if recv_fresh and a[1].cls is not None and a[1].kind == "method":
-                        # method of a fresh (just created) object: its effects are on that object
-                        continue
-                    evs.append(Event(PURE, "call", f.file, n.lineno, callee=a[1],
-                                     imprecise=bool(T.fallback_used.get(id(fn)) and len(T.fallback_used[id(fn)]) > 1)))
+                        # method of a fresh (just created) object: its effects on that object are not document effects
+                        ev.fresh = True
+                    evs.append(ev)
                 elif a[0] == "class":
                     handled = True
                     for g in (self.prog.lookup(a[1], "__init__"), self.prog.lookup(a[1], "__new__")):
@@ -461,6 +474,13 @@ class Effects:
                             evs.append(Event(PURE, "constructor", f.file, n.lineno, callee=g))
                 elif a[0] == "ext":
                     handled = True
+            if not handled and not ft and isinstance(fn.value, ast.Name) and fn.value.id in ("self", "cls") and f.cls is not None:
+                # abstract-method pattern: defined only in subclasses
+                subs = [g for c in self.prog.subclasses(f.cls) for g in [c.methods.get(meth)] if g is not None]
+                if subs:
+                    for g in subs:
+                        evs.append(Event(PURE, "call (subclass hook)", f.file, n.lineno, callee=g))
+                    return
             if not handled and not ft:
                 if bt and all(a[0] in ("prim", "list", "tuple", "ext") for a in bt):
                     return
@@ -498,9 +518,11 @@ class Effects:
         while changed:
             changed = False
             for f in self.funcs:
-                if not self.relevant[f] and any(e.callee is not None and self.relevant.get(e.callee) for e in self.events[f]):
+                if not self.relevant[f] and any(e.callee is not None and not e.fresh and self.relevant.get(e.callee) for e in self.events[f]):
                     self.relevant[f] = True
                     changed = True
+        for f in self.funcs:
+            self.nonself[f] = max([e.level for e in self.events[f] if e.callee is None and not e.self_rooted] or [PURE])
         changed = True
         rounds = 0
         while changed:
@@ -508,16 +530,23 @@ class Effects:
             rounds += 1
             for f in self.funcs:
                 lvl = self.summary[f]
+                ns = self.nonself[f]
                 for e in self.events[f]:
                     if e.callee is not None:
-                        cl = self.summary.get(e.callee, PURE)
+                        full = self.summary.get(e.callee, PURE)
+                        part = self.nonself.get(e.callee, PURE)
+                        cl = part if e.fresh else full
                         if cl > lvl:
                             lvl = cl
                             self.witness[f] = e
-                if lvl != self.summary[f]:
+                        cn = part if (e.fresh or e.self_rooted) else full
+                        if cn > ns:
+                            ns = cn
+                if lvl != self.summary[f] or ns != self.nonself[f]:
                     self.summary[f] = lvl
+                    self.nonself[f] = ns
                     changed = True
-            if rounds > 50:
+            if rounds > 60:
                 raise AnalysisError("effect fixpoint did not converge")
         self.rounds = rounds
 
